@@ -18,16 +18,16 @@ claimed = {
    note="Sequentialised schedules (the client delivers outstanding answers while the runner waits in WaitGroup.Wait); OS processes, real pipes and timing are outside; delimited I/O and bufio are stubbed in the engine and real natively.",
    ref="7 (C11)"),
  "C15": dict(
-   text="Transparency and frame reassembly: tracingHTTP2Conn.Read/Write/Close return exactly the wrapped connection's (n, err) and bytes for every n, nil/error/timeout, client and server side; http2FrameTracer.trace cuts a stream of 2 frames (declared payload 0..3, case split) delivered in any 3 chunks (case split, enumerated completely) into frames: after every chunk the buffered header bytes, declared length and bytes seen equal the reference cut and one frame is emitted per complete frame; flags, stream ids and payloads symbolic. Attribution: handleFrame for every well-formed sequence of <=4 decoded frames on two streams of a server-side connection (client/server HEADERS incl. trailers, RST_STREAM from either side, GOAWAY with last stream id 0/1/3/5, END_STREAM symbolic, stream with or without test name): exactly one trace per named stream that ended, was reset or was cut off, ending the way the stream did, with its own response and trailers; none for streams at or below the GOAWAY id or without a name; no panic. Retry: http2RetryCollector for every well-formed history of <=5 operations on two names - a refused attempt that is retried is not delivered, the retry is.",
+   text="Transparency and frame reassembly: tracingHTTP2Conn.Read/Write/Close return exactly the wrapped connection's (n, err) and bytes for every n, nil/error/timeout, client and server side, and hand exactly those bytes (also when returned together with an error) to the frame tracer of their direction; http2FrameTracer.trace cuts a stream of 2 frames (declared payload 0..3, case split) delivered in any 3 chunks (case split, enumerated completely) into frames: after every chunk the buffered header bytes, declared length and bytes seen equal the reference cut and one frame is emitted per complete frame; flags, stream ids and payloads symbolic. Attribution: handleFrame for every well-formed sequence of <=4 decoded frames on two streams of a server-side connection (client/server HEADERS incl. trailers, RST_STREAM from either side, GOAWAY with last stream id 0/1/3/5, END_STREAM symbolic, stream with or without test name): exactly one trace per named stream that ended, was reset or was cut off, ending the way the stream did, with its own response and trailers; none for streams at or below the GOAWAY id or without a name; no panic. Retry: http2RetryCollector for every well-formed history of <=5 operations on two names - a refused attempt that is retried is not delivered, the retry is.",
    note="HPACK and http2.Framer are third-party and outside the claim (handleFrame is driven with decoded frames); DATA frames are not driven at that level (x/net's DataFrame cannot be built outside its package; payload tracing is C14's subject); the 3 s retry timer is a stub whose firing is an operation of the harness; the client side of newBuilder (httptrace, reflection) and real goroutine interleavings of the two directions are outside; request direction of the frame cutter (client preface) not covered.",
    ref="7 (C15)"),
  "C20": dict(
-   text="Wrapper-state clause for the pooled zstd decompressor: every history of 4 operations from {Reset(input 1), Reset(input 2), Read, Close}: a closed library decoder is never used again, Reset after Close yields a usable instance that decodes the new input, Read decodes the input of the last Reset, Read without input yields nothing.",
-   note="The compression algorithms are third-party loops (the family's weak target): the library decoder is a contract stub in the engine and the real klauspost/zstd natively; round trips, malformed input and the other five wrappers are outside the claim.",
+   text="Wrapper-state clause for the pooled zstd decompressor: every history of 4 operations from {Reset(input 1), Reset(input 2), Read, Close}: a closed library decoder is never used again, Reset after Close yields a usable instance that decodes the new input, Read decodes the input of the last Reset, Read without input yields nothing. Failure clause for the pooled deflate decompressor: every history of 4 operations from {Reset(valid 1), Reset(valid 2), Reset(corrupt header), Reset(truncated body), Read, Close}: a Reset with a valid stream always succeeds and decodes that stream, whatever failed before. Naming clause for the wire tracer: tracer.GetDecompressor maps every encoding name (any letter case) to the algorithm of that name and an unknown name to none (content treated as empty).",
+   note="The compression algorithms are third-party loops (the family's weak target): the library decoders (klauspost/zstd, compress/zlib) are contract stubs in the engine that keep the documented stickiness of a failed reader, and the real libraries natively; round trips and bit-level malformed input, the gzip / brotli / snappy wrappers, and the name mappings inside the reference peers' connect options are outside the claim.",
    ref="7 (C20)"),
  "C13": dict(
-   text="Bounded model checking of the non-JSON wire examiners: checkGRPCStatus accepts grpc-status 1..16 with grpc-message = PercentEncodeMessage(m) for every byte string m of length <=3 and flags raw non-printable bytes and dangling escapes; the field-name / field-value validators equal the RFC 7230 tables for every string of length <=2; examineGRPCEndStream never panics on any string of length <=5 over {a, A, colon, space, CR, LF} (line structure case-split, bytes symbolic), gives no feedback and the right map for a well-formed line, and flags each named malformation; examineWireDetails hands each part of the response to the right examiner and flags HTTP trailers exactly outside gRPC (9 content types x status x trailer x body data x end-stream x trace error).",
-   note="Connect JSON examiners (encoding/json) and grpc-status-details-bin (base64 + protobuf) are outside the claim; in the dispatch harness the four examiners are recorders (natively the real ones run on well-formed contents); std-lib string helpers are bounded Go models.",
+   text="Bounded model checking of the non-JSON wire examiners: checkGRPCStatus accepts grpc-status 1..16 with grpc-message = PercentEncodeMessage(m) for every byte string m of length <=3 and flags raw non-printable bytes and dangling escapes; the field-name / field-value validators equal the RFC 7230 tables for every string of length <=2; examineGRPCEndStream never panics on any string of length <=5 over {a, A, colon, space, CR, LF} (line structure case-split, bytes symbolic), gives no feedback and the right map for a well-formed line, and flags each named malformation; checkGRPCStatus accepts a grpc-status / grpc-message / grpc-status-details-bin trio exactly when the three agree (codes 0..16, ASCII messages <=2 bytes, 0..1 details); examineWireDetails hands each part of the response to the right examiner and flags HTTP trailers exactly outside gRPC (9 content types x status x trailer x body data x end-stream x trace error).",
+   note="Connect JSON examiners (encoding/json) are outside the claim; base64 and protobuf decoding of grpc-status-details-bin are contract stubs in the engine (real natively), padded base64 is not covered; in the dispatch harness the four examiners are recorders (natively the real ones run on well-formed contents); std-lib string helpers are bounded Go models.",
    ref="7 (C13)"),
  "C16": dict(
    text="Bounded model checking of Tracer over atomic-step schedules: every sequence of 4 operations from {Init, Complete, Clear, Await} over two test names, where a blocked Await lets the remaining operations run (nested waiters included) and ends with its context when nothing is left; each waiter gets precisely the first trace completed for the slot it waited on (before or after the wait began), waits on cleared / never-initialised names fail, a wait never outlives its context.",
@@ -38,7 +38,7 @@ claimed = {
    note="The compression algorithms are third-party code (C20): in the engine they are a framing model (header byte, payload, trailer byte on Close), natively the real ones; rawRequestSender.RoundTrip (net/http, io.Pipe, goroutines, net/url) is outside the claim.",
    ref="7 (C17)"),
  "C18": dict(
-   text="Bounded model checking of the byte kernels and the codec wiring: PercentEncodeMessage yields printable ASCII and is inverted by the reference decoder for every byte string of length <=3; header list -> gRPC metadata -> header list preserves the key up to case and the values in order with -bin values coded exactly once; StrictProtoCodec / StrictJSONCodec decode what Marshal, MarshalAppend and MarshalStable produce and reject unknown fields; test-case error -> connect.Error -> test-case error (real connect-go code executed from its SSA) preserves code, message and every detail's type URL and bytes (0..2 details, zero-length values included).",
+   text="Bounded model checking of the byte kernels and the codec wiring: PercentEncodeMessage yields printable ASCII and is inverted by the reference decoder for every byte string of length <=3; header list -> gRPC metadata -> header list preserves the key up to case and the values in order with -bin values coded exactly once; a header list that names a header twice (also differing only in letter case) hands gRPC all its values in order, on the server side (ConvertProtoHeaderToMetadata) and on the client side (AppendToOutgoingContext + grpc metadata read back), with -bin values decoded exactly once; StrictProtoCodec / StrictJSONCodec decode what Marshal, MarshalAppend and MarshalStable produce and reject unknown fields; test-case error -> connect.Error -> test-case error (real connect-go code executed from its SSA) preserves code, message and every detail's type URL and bytes (0..2 details, zero-length values included).",
    note="base64 and proto/protojson are inverse-pair contract stubs in the engine (real libraries natively), so the libraries' own losslessness is outside the claim; the grpc status pair (grpc-go internals) is not encoded.",
    ref="7 (C18)"),
  "C02": dict(
@@ -74,11 +74,11 @@ claimed = {
    note="Inside the bound only. Strings are drawn from a finite alphabet of constants; trusted: go/ssa lowering, the gosym encoder, the solvers, the glob reference in the harness. Not covered yet: @file parsing, unmatched-pattern reporting, known-failing/flaky conflict check inside run().",
    ref="7 (C08)"),
  "C09": dict(
-   text="Bounded model checking of timeoutDelimitedReader.read and readDelimitedMessageRaw (real SSA, goroutine run at spawn, select with a slowest-timer model) against the reference of DESIGN.md Appendix B: every script of <=3/4 Read calls with symbolic (n, err) per call - 1-byte reads, reads ending exactly on the prefix boundary, (n>0, err), (0, nil) - every truncation point, oversize prefixes and every stall point.",
-   note="Binary variant only; reader assumed to end/fail/complete within the stated number of calls; JSON variant (encoding/json), real timers and proto (un)marshalling are outside the claim.",
+   text="Bounded model checking of timeoutDelimitedReader.read and readDelimitedMessageRaw (real SSA, goroutine run at spawn, select with a slowest-timer model) against the reference of DESIGN.md Appendix B: every script of <=3/4 Read calls with symbolic (n, err) per call - 1-byte reads, reads ending exactly on the prefix boundary, (n>0, err), (0, nil) - every truncation point, oversize prefixes and every stall point; plus the peer-side binary codec (protoEncoder / protoDecoder): what was encoded is decoded back in order for 0..2 messages of 0..2 bytes, with the stream cut after any number of bytes and (for one message) delivered in chunks of 1..4 bytes per read: a clean end only between messages, an unexpected end otherwise.",
+   note="Binary variant only; reader assumed to end/fail/complete within the stated number of calls; JSON variant (encoding/json's Decoder) and real timers are outside the claim; proto (un)marshalling is a contract stub in the codec harness (real natively); the peer-side decoder has no size limit to check.",
    ref="7 (C09)"),
  "C14": dict(
-   text="Bounded model checking of tracingReader.Read/Close, dataTracer and builder (real SSA) against a one-shot reference event list: for every layout of <=2 enveloped messages (declared length <=2), every cut point, every partition of the body into 2 reads and every terminal behaviour (case-split, enumerated completely), with flags, payload bytes and Close outcome symbolic; asserts byte/count/error transparency, exact envelope flags/length, consecutive indices, partial final event, end-stream content decompressed exactly when the compressed flag is set, single body end; plus tracingResponseWriter.Write with a short / failing last write: the trace shows what was actually written.",
+   text="Bounded model checking of tracingReader.Read/Close, dataTracer and builder (real SSA) against a one-shot reference event list: for every layout of <=2 enveloped messages (declared length <=2), every cut point, every partition of the body into 2 reads and every terminal behaviour (case-split, enumerated completely), and one message of declared length <=3 in every partition into 3 reads, with flags, payload bytes and Close outcome symbolic; asserts byte/count/error transparency, exact envelope flags/length, consecutive indices, partial final event, end-stream content decompressed exactly when the compressed flag is set, single body end; plus tracingResponseWriter.Write with a short / failing last write: the trace shows what was actually written.",
    note="Positions (lengths, cut, chunk sizes) are case-split rather than symbolic because symbolic slice offsets made the encoding intractable; decompressor is a contract stub; bytes.Buffer modelled on its fields; WriteHeader / trailer snapshotting of the response writer and the HTTP plumbing (RoundTripper/Handler) are not covered.",
    ref="7 (C14)"),
 }
